@@ -1,4 +1,5 @@
 import PynnVerif.Proofs.Metrics
+import PynnVerif.Props.C07b
 
 /-!
 # C07 — every dense metric computes its documented definition
